@@ -3,7 +3,7 @@
    [complete] is EnsembleOptimizer._get_completed_variables, [callback]/[run] the optimizer callback with its
    _fixed_variables state and nested deliveries, [sampler_mask] _get_mask, [sampler_fill] how a sampler writes
    its own variable set, [perturb] _perturb_variables (Model/Bounds.v), [expand_zeros] _expand_gradients. *)
-From Coq Require Import QArith ZArith List Bool Arith.
+From Coq Require Import QArith Qabs ZArith List Bool Arith.
 From Ropt Require Import Base.Num Base.ListX Gen.Generated Model.Bounds Model.Mask Proofs.Bounds Proofs.Mask.
 Import ListNotations.
 Open Scope Q_scope.
@@ -71,6 +71,51 @@ Theorem C09_perturbation_fixed : forall ts lbs ubs x mags ss r p i t l u xv m,
   exists q, nth3 (perturb ts lbs ubs x mags (sum_samples ss)) r p i = Some q /\ q == xv.
 Proof. exact perturb_unsampled. Qed.
 
+(* the same for what _perturb_variables really builds ([run_samplers]: the samplers that own a variable, in order of
+   first appearance, each restricted to its own variable set by _get_mask, their arrays added): every position no
+   sampler owns -- every masked-out position, and every free position whose sampler index is negative -- shows
+   the current value in every perturbed vector.  This is the term the correspondence checker evaluates. *)
+Theorem C09_unowned_positions_kept : forall gs m scripts ts lbs ubs x mags r p i t l u xv mg,
+  sampler_order gs <> [] ->
+  match gs with Some g => length g = length m | None => True end ->
+  (forall k, In k (sampler_order gs) -> exists s mat row,
+      nth_error scripts (Z.to_nat k) = Some s /\ nth_error s r = Some mat /\ nth_error mat p = Some row /\
+      length row = length m) ->
+  nth_error (owned gs (Some m) (length m)) i = Some false ->
+  nth_error ts i = Some t -> nth_error lbs i = Some l -> nth_error ubs i = Some u ->
+  nth_error x i = Some xv -> nth_error mags i = Some mg -> inside l u xv ->
+  exists q, nth3 (perturb ts lbs ubs x mags (run_samplers gs (Some m) scripts)) r p i = Some q /\ q == xv.
+Proof. exact run_samplers_unowned. Qed.
+Theorem C09_fixed_positions_kept : forall gs m scripts ts lbs ubs x mags r p i t l u xv mg,
+  sampler_order gs <> [] ->
+  match gs with Some g => length g = length m | None => True end ->
+  (forall k, In k (sampler_order gs) -> exists s mat row,
+      nth_error scripts (Z.to_nat k) = Some s /\ nth_error s r = Some mat /\ nth_error mat p = Some row /\
+      length row = length m) ->
+  nth_error m i = Some false ->
+  nth_error ts i = Some t -> nth_error lbs i = Some l -> nth_error ubs i = Some u ->
+  nth_error x i = Some xv -> nth_error mags i = Some mg -> inside l u xv ->
+  exists q, nth3 (perturb ts lbs ubs x mags (run_samplers gs (Some m) scripts)) r p i = Some q /\ q == xv.
+Proof.
+  intros gs m scripts ts lbs ubs x mags r p i t l u xv mg Hne Hl Hs Hm.
+  apply run_samplers_unowned; try assumption. apply masked_unowned; assumption.
+Qed.
+
+(* the evaluator computes a gradient from cached function values only for a gradient-only request of one vector
+   that coincides (np.allclose, atol 1e-15) with the cached vector on EVERY position, the fixed ones included, so
+   a nested delivery that changes a fixed variable between the function request and the gradient request
+   invalidates the cache; in every other case the function values are evaluated afresh at the requested vector *)
+Theorem C09_cached_gradient_same_full_vector : forall cache f g vs v c',
+  evaluate cache f g vs = (EvGradCached v, c') ->
+  f = false /\ g = true /\ vs = [v] /\ c' = cache /\
+  exists c, cache = Some c /\ length c = length v /\
+            forall i x y, nth_error c i = Some x -> nth_error v i = Some y -> Qabs (x - y) <= cache_atol.
+Proof. exact evaluate_cached_sound. Qed.
+Theorem C09_stale_cache_not_used : forall cache f g v,
+  g = true -> (f = true \/ match cache with Some c => same_point c v = false | None => True end) ->
+  evaluate cache f g [v] = (EvBoth v, None).
+Proof. exact evaluate_fresh. Qed.
+
 (* reported gradients are the literal 0 on masked positions and have the full length; the optimizer gets back
    exactly the free entries (count_true mask of them) *)
 Theorem C09_gradient_zero : forall mask g,
@@ -100,9 +145,21 @@ Example C09_example :
   = [ (None, CbEvaluate [[1; 5; 2]]);
       (Some [3; 5; 4], CbEvaluate [[3; 7; 4]]);
       (None, CbEvaluate [[8; 7; 9]; [10; 7; 11]]) ] /\
-  expand_zeros [true; false; true] [Q_ 1 2; Q_ 3 4] = [Q_ 1 2; 0; Q_ 3 4].
+  expand_zeros [true; false; true] [Q_ 1 2; Q_ 3 4] = [Q_ 1 2; 0; Q_ 3 4] /\
+  (* two samplers on disjoint sets (sampler 2 owns variable 0, sampler 0 variable 3, variable 2 belongs to none):
+     the fixed variable 1 and the unowned variable 2 keep their values in the perturbed vector *)
+  owned (Some [2; 0; -1; 0]%Z) (Some [true; false; true; true]) 4 = [true; false; false; true] /\
+  forallb2 (forallb2 (list_eqb Qeqb))
+    (perturb [bt_mirror; bt_mirror; bt_truncate; bt_none] [Fin 0; Fin 0; Fin 0; NInf] [Fin 1; Fin 1; Fin 1; PInf]
+             [Q_ 1 2; Q_ 1 4; 1; 3] [1; 1; 1; 1]
+             (run_samplers (Some [2; 0; -1; 0]%Z) (Some [true; false; true; true])
+                           [ [[[5; 5; 5; 5]]]; [[[6; 6; 6; 6]]]; [[[Q_ 1 4; 7; 7; 7]]] ]))
+    [[[Q_ 3 4; Q_ 1 4; 1; 8]]] = true /\
+  (* the function values cached for [1; 5; 2] are not used for a gradient at [1; 7; 2] *)
+  evaluate (Some [1; 5; 2]) false true [[1; 7; 2]] = (EvBoth [1; 7; 2], None) /\
+  evaluate (Some [1; 5; 2]) false true [[1; 5; 2]] = (EvGradCached [1; 5; 2], Some [1; 5; 2]).
 Proof.
-  split; [split; cbn; [repeat constructor | exact I]|]. split; reflexivity.
+  split; [split; cbn; [repeat constructor | exact I]|]. repeat split; vm_compute; reflexivity.
 Qed.
 
 Print Assumptions C09_complete.
@@ -112,5 +169,9 @@ Print Assumptions C09_sampler_sets.
 Print Assumptions C09_sampler_sets_disjoint.
 Print Assumptions C09_sampler_zeros.
 Print Assumptions C09_perturbation_fixed.
+Print Assumptions C09_unowned_positions_kept.
+Print Assumptions C09_fixed_positions_kept.
+Print Assumptions C09_cached_gradient_same_full_vector.
+Print Assumptions C09_stale_cache_not_used.
 Print Assumptions C09_gradient_zero.
 Print Assumptions C09_exposed_length.
